@@ -273,11 +273,64 @@ type prop struct {
 	e2eTLS     [nE2ESrv]*tls.Config
 }
 
-const nE2ESrv = 3
+const nE2ESrv = 4
 
 const authShapes = "cCgkKaflvVw" // the active client-auth shapes; 'i' is the inactive one
 
 var e2eSites = []string{"secret.test", "public.test"}
+
+// e2e server 3 protects a WILDCARD site (policy `sni *.secret.test`, route `host *.secret.test`)
+func e2eSitesOf(k int) []string {
+	if k == 3 {
+		return []string{"*.secret.test", "public.test"}
+	}
+	return e2eSites
+}
+
+// hasEmptyLabel: one of the name's dot-separated labels is empty (leading / doubled / trailing dot;
+// the empty name is one empty label)
+func hasEmptyLabel(s string) bool {
+	return s == "" || strings.HasPrefix(s, ".") || strings.HasSuffix(s, ".") || strings.Contains(s, "..")
+}
+
+// refHostWildcard: the HTTP-side reading of a wildcard pattern (caddyhttp host matcher): same number
+// of labels, a `*` label matches any label — an empty one too —, the others case-insensitively.
+func refHostWildcard(name, pattern string) bool {
+	if !strings.Contains(pattern, "*") {
+		return false
+	}
+	pp, nn := strings.Split(pattern, "."), strings.Split(name, ".")
+	if len(pp) != len(nn) {
+		return false
+	}
+	for i := range pp {
+		if pp[i] != "*" && !strings.EqualFold(pp[i], nn[i]) {
+			return false
+		}
+	}
+	return true
+}
+
+// leftmostWildcard: the pattern's `*` labels form a prefix of its labels (the only wildcard shape the
+// TLS side, certmagic.MatchWildcard, can match; `x.*.test` as an sni name matches nothing)
+func leftmostWildcard(p string) bool {
+	star := true
+	for _, l := range strings.Split(p, ".") {
+		if l == "*" {
+			if !star {
+				return false
+			}
+		} else {
+			star = false
+			if strings.Contains(l, "*") {
+				return false
+			}
+		}
+	}
+	return true
+}
+
+const clsEmptyLabel = "empty-label-sni-reaches-wildcard-site"
 
 func selfSigned(names ...string) (certPEM, keyPEM string, err error) {
 	key, err := ecdsa.GenerateKey(elliptic.P256(), rand.Reader)
@@ -329,8 +382,13 @@ func (p *prop) setup() error {
 		if err != nil {
 			return err
 		}
+		c3, k3, err := selfSigned("*.secret.test")
+		if err != nil {
+			return err
+		}
 		tlsRaw, _ := json.Marshal(map[string]any{"certificates": map[string]any{"load_pem": []any{
-			map[string]any{"certificate": c1, "key": k1}, map[string]any{"certificate": c2, "key": k2}}}})
+			map[string]any{"certificate": c1, "key": k1}, map[string]any{"certificate": c2, "key": k2},
+			map[string]any{"certificate": c3, "key": k3}}}})
 		cfg := &caddy.Config{Logging: &caddy.Logging{Logs: map[string]*caddy.CustomLog{
 			"default": {BaseLog: caddy.BaseLog{WriterRaw: json.RawMessage(`{"output":"discard"}`)}},
 		}}, AppsRaw: caddy.ModuleMap{"tls": tlsRaw}}
@@ -916,11 +974,19 @@ func validSite(s string) bool {
 	}
 	for i := 0; i < len(s); i++ {
 		c := s[i]
-		if !(c >= 'a' && c <= 'z' || c >= '0' && c <= '9' || c == '.') {
+		if !(c >= 'a' && c <= 'z' || c >= '0' && c <= '9' || c == '.' || c == '*') {
 			return false
 		}
 	}
 	return true
+}
+
+// hostOnlyASCII: the Host without a `:digits` suffix (oracle side; only for plain shapes)
+func hostOnlyASCII(h string) string {
+	if m := wellFormedHost.FindStringSubmatch(h); m != nil {
+		return m[1]
+	}
+	return h
 }
 
 var wellFormedHost = regexp.MustCompile(`^([A-Za-z0-9.-]*)(:[0-9]*)?$`)
@@ -1063,10 +1129,19 @@ func (p *prop) runEnf(f []string) core.Outcome {
 				}
 			} else if site != "*" {
 				k, _ := strconv.Atoi(site)
-				if k < len(sites) && !foldEq(sites[k], rq.sni) {
+				// the SNI must be covered by the TLS-side reading of the site's name / pattern
+				// (a connection policy `sni <site>` would apply to this connection)
+				if k < len(sites) && strings.Contains(sites[k], "*") && !leftmostWildcard(sites[k]) {
+					// observation, not this property: an sni name with a wildcard that is not a
+					// left-most label prefix matches nothing on the TLS side at all
+					tag("observation:non-leftmost-wildcard-site")
+				} else if k < len(sites) && !refWildcard(rq.sni, sites[k]) {
 					class := "strict-sni-host-bypass"
 					if obsStrict && unicodeFoldOnly(rq.sni, sites[k]) {
 						class = clsUnicodeFold
+					}
+					if obsStrict && hasEmptyLabel(rq.sni) && refHostWildcard(rq.sni, sites[k]) {
+						class = clsEmptyLabel
 					}
 					fail(class, fmt.Sprintf("strict SNI-Host in effect, connection SNI %q, Host %q: request was routed to the handler of site %q, whose name does not select the same connection policies as that SNI", rq.sni, rq.host, sites[k]))
 				}
@@ -1090,14 +1165,14 @@ func (p *prop) runEnf(f []string) core.Outcome {
 // ---------------------------------------------------------------- end to end (real handshake)
 
 func (p *prop) setupE2E() error {
-	for k, shape := range []byte{'C', 'V', 'l'} {
+	for k, shape := range []byte{'C', 'V', 'l', 'C'} {
 		pols := []any{
-			map[string]any{"alpn": []string{"c19-0"}, "match": map[string]any{"sni": []string{"secret.test"}},
+			map[string]any{"alpn": []string{"c19-0"}, "match": map[string]any{"sni": []string{e2eSitesOf(k)[0]}},
 				"client_authentication": p.clientAuthJSON(shape)},
 			map[string]any{"alpn": []string{"c19-1"}, "fallback_sni": "public.test"},
 		}
 		var routes []any
-		for i, s := range e2eSites {
+		for i, s := range e2eSitesOf(k) {
 			routes = append(routes, map[string]any{
 				"match":    []any{map[string]any{"host": []string{s}}},
 				"handle":   []any{map[string]any{"handler": "verif_c19_probe", "site": strconv.Itoa(i)}},
@@ -1219,7 +1294,7 @@ func (p *prop) runE2E(f []string) core.Outcome {
 	if strings.ContainsAny(sni, "[]") {
 		fail("bracketed-sni-completes-handshake", fmt.Sprintf("a handshake with SNI %q completed (under policy %s); strict SNI-Host does not bind bracketed names", sni, hs))
 	}
-	if foldEq(sni, "secret.test") && hs != "p0" {
+	if refWildcard(sni, e2eSitesOf(k)[0]) && hs != "p0" {
 		fail("later-policy-chosen-over-first-match", fmt.Sprintf("real handshake with SNI %q completed under policy %s; first match is the client-auth policy 0", sni, hs))
 	}
 	if hs == "p0" {
@@ -1250,10 +1325,13 @@ func (p *prop) runE2E(f []string) core.Outcome {
 		if obsStrict && unicodeFoldOnly(sni, e2eSites[0]) {
 			class = clsUnicodeFold
 		}
-		fail(class, fmt.Sprintf("connection SNI %q (policy %s, no client certificate), Host %q: request reached the handler of %s", sni, hs, host, e2eSites[0]))
+		if obsStrict && k == 3 && hasEmptyLabel(sni) && refHostWildcard(sni, e2eSitesOf(k)[0]) {
+			class = clsEmptyLabel
+		}
+		fail(class, fmt.Sprintf("connection SNI %q (policy %s, no client certificate), Host %q: request reached the handler of %s", sni, hs, host, e2eSitesOf(k)[0]))
 	}
 	if !obsStrict {
-		fail("strict-sni-host-not-enabled", fmt.Sprintf("e2e server %d (client-auth shape %c) has a client-auth policy and no explicit strict_sni_host, but does not enforce strict SNI-Host", k, "CVl"[k]))
+		fail("strict-sni-host-not-enabled", fmt.Sprintf("e2e server %d (client-auth shape %c) has a client-auth policy and no explicit strict_sni_host, but does not enforce strict SNI-Host", k, "CVlC"[k]))
 	}
 	o.Impl = "hs=" + hs + " strict=" + map[bool]string{false: "0", true: "1"}[obsStrict] + " " + res
 	return o
